@@ -50,6 +50,11 @@ package schema
 //@   pure
 //@   ensures result == basisLex(self)
 
+// the example text of the node (baseNode.Value below): only a read
+//@ interface Node.Value(self)
+//@   requires isNode(self)
+//@   pure
+
 //@ interface Node.NumberOfConstraints(self)
 //@   requires isNode(self) && consReady(self)
 //@   nopanic
